@@ -48,7 +48,7 @@ func planOf(t []*Node) txPlan {
 		for _, n := range l {
 			if n.Op == nNative {
 				switch n.Nat.Kind {
-				case natSetFee, natBlock, natUnblock:
+				case natSetFee, natBlock, natUnblock, natDesignate, natSetWl, natDelWl:
 					p.committee = true
 				case natDeploy:
 					p.deploys = true
